@@ -170,6 +170,31 @@ def explore(col, pp, vidx, depth):
                                                    'distinct_step_outcome_classes': len(classes)})
 
 
+def _spell(i):
+    vs, _, cls = judge_step(_G['pp'], _G['vidx'], _G['sp'], (), i, _G['empty'])
+    return vs, cls
+
+
+def spellings(col, pp, vidx):
+    """One-step programs over every spelling of a quantity (prefix x unit, incl. sizes that are no multiple of 10^-10 base units):
+    the step performs the request as it was written when it was recorded."""
+    from .. import alphabets
+    sizes = {'L': [2.54e-9, 12.25e-9, 1.23456e-6, 52e-6], 'g': [1.2345e-9, 7e-6, 5e-3], 'mol': [1.25e-10, 4e-11, 9e-6],
+             'U': [1e-7, 0.002]}
+    acts = [e2.T(s, d, q) for (s, d) in (('A', 'B'), ('A', ['P', "(1, slice(None))"]))
+            for base, vals in sizes.items() for v in vals for q in alphabets.unit_spellings(v, base)]
+    _G.update(pp=pp, vidx=vidx, sp=acts, empty=e2.bake(pp, vidx, [])['results'])
+    res = par.pmap(_spell, list(range(len(acts))))
+    classes = set()
+    for vs, cls in res:
+        col.add(vs)
+        classes.add(cls)
+    for k in ('transitions', 'traces', 'evaluations'):
+        col.count(k, len(acts))
+    col.note_nontrivial({report.digest((vidx, 'spelling', c)) for c in classes})
+    col.cov.setdefault('spellings', []).append({'valuation': vidx, 'one_step_programs': len(acts), 'classes': len(classes)})
+
+
 def run(col):
     pp = env.load()
     col.rule = ("every program of <= 3 (quick) / 4 (thorough) steps over a 28-action recipe vocabulary (transfers container / "
@@ -182,6 +207,7 @@ def run(col):
     vals = [col.seed % 3] if col.tier == 'quick' else [0, 1, 2]
     for v in vals:
         explore(col, pp, v, 3 if col.tier == 'quick' else 4)
+        spellings(col, pp, v)
 
 
 def replay(case):
